@@ -1635,6 +1635,15 @@ def run(repo=None):
     try:
         rep, coe = generate(repo)
     except (Refuse, OSError) as ex:
+        # do not leave the generated text of some EARLIER tree in place: the Lean build must fail with this refusal, not with an
+        # unrelated proof error (or, worse, pass on stale definitions)
+        msg = re.sub(r'[^ -~]', '?', str(ex)).replace("\\", "/").replace('"', "'")[:600]
+        stub = ("/- written by tools/gen_variant.py: the translator REFUSED the current include/nstd/Variant.hpp / src/Variant.cpp -/\n"
+                f'example : "gen_variant refused: {msg}" = "" := by decide\n')
+        OUT_REP.parent.mkdir(parents=True, exist_ok=True)
+        for path in (OUT_REP, OUT_COE):
+            if not path.exists() or path.read_text() != stub:
+                path.write_text(stub)
         return False, f"gen_variant: {ex}"
     OUT_REP.parent.mkdir(parents=True, exist_ok=True)
     for path, text in ((OUT_REP, rep), (OUT_COE, coe)):
